@@ -70,7 +70,7 @@ def _work(job):
     return idx, {"more": more, "results": results, "solver_s": solver_s,
                  "unique": len(cache), "exits": rep.exits,
                  "unsupported": rep.unsupported, "bounded": rep.bounded,
-                 "gen_s": gen_s,
+                 "gen_s": gen_s, "covered": sorted(rep.covered),
                  "assumptions": _UNI.assumptions[n_before:],
                  "used": dict(_UNI.repo.used)}
 
@@ -85,6 +85,7 @@ def _merge_outs(c, parts, max_paths=4000):
     lite.paths = len(parts)
     lite.exits = {"return": 0, "raise": {}}
     lite.unsupported, lite.bounded, lite.wall = None, False, 0.0
+    lite.covered = set()
     results, solver_s, unique, assumptions, used = [], 0.0, 0, [], {}
     for p in parts:
         lite.exits["return"] += p["exits"]["return"]
@@ -92,6 +93,7 @@ def _merge_outs(c, parts, max_paths=4000):
             lite.exits["raise"][k] = lite.exits["raise"].get(k, 0) + v
         lite.unsupported = lite.unsupported or p["unsupported"]
         lite.bounded = lite.bounded or p["bounded"]
+        lite.covered |= set(p["covered"])
         lite.wall += p["gen_s"]
         results.extend(p["results"])
         solver_s += p["solver_s"]
@@ -254,6 +256,11 @@ def run(prop, tier, seed, update_lock=False, verbose=False):
                 f"{c.name}: unsupported: {rep.unsupported}")
         if not out["results"] and not rep.unsupported:
             result["errors"].append(f"{c.name}: zero obligations (vacuous)")
+        missing = [lab for lab, _, _ in c.covers if lab not in rep.covered]
+        if missing and not rep.unsupported:
+            result["errors"].append(
+                f"{c.name}: cover point(s) not reachable {missing} "
+                f"(vacuous contract or unsound model)")
         if rep.paths and not rep.exits["return"] and not rep.exits["raise"]:
             result["errors"].append(f"{c.name}: no path reaches an exit "
                                     f"(contradictory precondition?)")
